@@ -64,9 +64,19 @@ class Ctx:
     def want(self, stream: str, index: int) -> bool:
         """When replaying, only the recorded case is regenerated."""
         if self.replay is not None:
-            return self.replay.get('stream') == stream and self.replay.get('index') == index
+            hit = self.replay.get('stream') == stream and self.replay.get('index') == index
+            if hit:
+                self.current = (stream, index)
+            return hit
         k, n = self.shard
-        return index % n == k
+        mine = index % n == k
+        if mine:
+            self.current = (stream, index)       # the case being evaluated (used when it does not terminate)
+            pf = getattr(self, 'progress_file', None)
+            if pf:
+                with open(pf, 'w') as f:
+                    f.write(f'{stream}\t{index}')
+        return mine
 
     # -- bookkeeping ----------------------------------------------------------------------
     def count(self, key: str, n: int = 1) -> None:
